@@ -7,25 +7,28 @@ import vlib
 OPA_TESTDATA = '/root/go/pkg/mod/github.com/open-policy-agent/opa@v1.3.0/v1/test/cases/testdata'
 
 
-def run_corpus(ctx, h, prop, replay_modules=None):
-    out = os.path.join(ctx.tmp, 'corpus_%s.json' % prop)
-    wd = os.path.join(ctx.tmp, 'work_%s' % prop)
+def run_corpus(ctx, h, prop, replay_modules=None, replay_opt=None, mode='corpus', tag='', env_extra=None):
+    """mode 'corpus': everything; 'large': only the large single-call batches (C03, harness built with -race)"""
+    out = os.path.join(ctx.tmp, 'corpus_%s%s.json' % (prop, tag))
+    wd = os.path.join(ctx.tmp, 'work_%s%s' % (prop, tag))
     os.makedirs(wd, exist_ok=True)
     env = dict(os.environ, VERIF_SEED=str(ctx.seed))
+    env.update(env_extra or {})
     if replay_modules is not None:
-        rp = os.path.join(ctx.tmp, 'replay_in.json')
-        json.dump({'modules': replay_modules}, open(rp, 'w'))
+        rp = os.path.join(ctx.tmp, 'replay_in%s.json' % tag)
+        json.dump({'modules': replay_modules, 'opt': replay_opt}, open(rp, 'w'))
         cmd = [h, 'replay', out, rp, wd]
     else:
-        cmd = [h, 'corpus', out, ctx.tier, vlib.REPO, OPA_TESTDATA, os.path.join(vlib.VERIF, 'corpus', prop), wd]
+        cmd = [h, mode, out, ctx.tier, vlib.REPO, OPA_TESTDATA, os.path.join(vlib.VERIF, 'corpus', prop), wd]
     rc, log = vlib.run(cmd, env=env, timeout=3000)
     if rc != 0 or not os.path.exists(out):
         raise RuntimeError('%s corpus harness failed (rc=%d): %s' % (prop, rc, log[-3000:]))
     return json.load(open(out))
 
 
-def report_failures(ctx, summ, prop):
-    """every lint error / panic / hang on a parseable module is a violation of C03 (one per signature)"""
+def report_failures(ctx, summ, prop, race=False):
+    """every parse rejection / lint error / panic / runtime fatal / hang / race report on modules OPA's parser accepts is a
+    violation of C03 (one per signature)"""
     best = {}
     for r in summ['results']:
         for f in r.get('failures') or []:
@@ -37,10 +40,25 @@ def report_failures(ctx, summ, prop):
     for k in sorted(best):
         f = best[k][1]
         sig = {'kind': 'lint-error', 'key': k}
-        vlib.violation(ctx, {'kind': 'lint-error', 'modules': f['modules'], 'error': f['err'][:1500], 'timeout': f.get('timeout', False),
-                             'what': 'linter.Lint with all rules enabled fails on %d parseable module(s) (%s): %s'
-                                     % (len(f['modules']), ', '.join(m['src'] for m in f['modules'][:3]), f['err'][:300])},
-                       signature=sig)
+        opt = f.get('opt')
+        if k.startswith('parse: '):
+            what = 'regal fails to parse a module that OPA\'s own parser accepts (%s): the whole run is lost: %s' % (f['modules'][0]['src'], f['err'][:300])
+        elif opt and opt.get('large'):
+            sets = opt.get('rule_sets') or []
+            how = ('every rule enabled' if not opt.get('no_all') else '') + (', then ' if sets and not opt.get('no_all') else '') + \
+                  ('one call per rule subset %s' % sets if sets else '')
+            what = ('ONE linter.Lint call over %d small parseable modules (%s)%s dies: %s'
+                    % (len(f['modules']), how, ' under the race detector' if race else '', f['err'][:300]))
+        else:
+            what = ('linter.Lint with %s fails on %d parseable module(s) (%s): %s'
+                    % ('the rules %s enabled' % opt['rule_sets'] if opt and opt.get('rule_sets') else 'all rules enabled',
+                       len(f['modules']), ', '.join(m['src'] for m in f['modules'][:3]), f['err'][:300]))
+        rep = {'kind': 'lint-error', 'modules': f['modules'], 'error': f['err'][:(4000 if race else 1500)], 'timeout': f.get('timeout', False), 'what': what}
+        if opt:
+            rep['opt'] = opt
+        if race:
+            rep['race'] = True
+        vlib.violation(ctx, rep, signature=sig)
         n += 1
     return best
 
@@ -72,6 +90,10 @@ def corpus_stats(summ):
         for f in r.get('failures') or []:
             fails[f.get('key', '?')] = fails.get(f.get('key', '?'), 0) + 1
     n_unparsed = sum(unparsed.values())
+    oracle = {}
+    for r in res:
+        for k, n in (r.get('oracle') or {}).items():
+            oracle[k] = oracle.get(k, 0) + n
     return {
         'corpus_counts': summ['counts'],
         'modules_submitted': sum(r.get('n', 0) for r in res),
@@ -83,6 +105,7 @@ def corpus_stats(summ):
         'distinct_rules_reporting': len(by_rule),
         'violations_by_rule_top': dict(sorted(by_rule.items(), key=lambda kv: -kv[1])[:25]),
         'lint_failures_by_signature': fails,
+        'modules_linted_by_rego_version': oracle,
         'located_violations': sum(r.get('located', 0) for r in res),
         'text_checked': sum(r.get('text_checked', 0) for r in res),
         'end_past_line_end': sum(r.get('end_past_line', 0) for r in res),
